@@ -77,6 +77,8 @@ struct Side {
     acks_out: u64,
     handshake_ack_sent: bool,
     reset_sent_while_held: bool,
+    /// the application's first shutdown() on this stream was called after the peer's Reset of it had been delivered
+    shut_call_after_reset: bool,
     /// payload bytes of Push frames delivered to this endpoint for this stream
     dlv_bytes: u64,
     dlv_bytes_at_reset: Option<u64>,
@@ -318,6 +320,19 @@ pub fn analyse(log: &[Rec], fams: &[Fam], meta: &Meta) -> Analysis {
                             }
                         }
                     }
+                    Wm::Finish { id } => {
+                        // a stream the peer has aborted is gone: a shutdown() called on the handle afterwards (log order: the call
+                        // follows the delivery of the Reset, and it is the first shutdown, so no Finish can have been queued
+                        // earlier) has nothing to say on the wire - the id may already belong to another stream
+                        if let Some(sid) = by_flow.get(&(e, *id)).copied() {
+                            let s = &streams[&sid].s[e];
+                            if meta.sim && s.shut_call_after_reset && !meta.stream_is_bridge {
+                                cnt.add("finish_after_peer_abort", 1);
+                                cx.fail(Fam::Abort, i, "finish-after-peer-abort", format!("ep{e} sent Finish for s{sid} (flow {id:x}) although the peer's Reset of that stream had been delivered before the application called shutdown(): the stream no longer exists, the frame belongs to nobody (or to whoever uses the id next)"));
+                                cx.fail(Fam::Eos, i, "finish-after-peer-abort", format!("ep{e} sent Finish for s{sid} (flow {id:x}) after the peer's Reset of that stream had been delivered and only then shutdown() was called"));
+                            }
+                        }
+                    }
                     Wm::Bind { id, port, .. } => {
                         bind_wire_flow.insert(*port, *id);
                         cnt.add("bind_sent", 1);
@@ -548,6 +563,9 @@ pub fn analyse(log: &[Rec], fams: &[Fam], meta: &Meta) -> Analysis {
                     }
                     Api::ShutCall => {
                         if let Some(st) = streams.get_mut(sid) {
+                            if st.s[e].reset_delivered && !st.s[e].shut_called {
+                                st.s[e].shut_call_after_reset = true;
+                            }
                             st.s[e].shut_called = true;
                         }
                     }
